@@ -51,8 +51,36 @@ def frontier(pairs, resolver=None):
                 # n-ary AC-normalised: drop the common terms, pair the rest in order
                 ia, ib = {n.id for n in ka}, {n.id for n in kb}
                 ka2 = [n for n in ka if n.id not in ib]; kb2 = [n for n in kb if n.id not in ia]
+                if len(ka2) != len(kb2) and a.op == "+":
+                    # match leftover terms of the same shape pairwise and descend into them; the unmatched rest
+                    # forms two (small) partial sums
+                    def shape(n):
+                        cs = tuple(str(x.args[0]) for x in n.args if isinstance(x, sym.N) and x.op == "c")
+                        return (n.op, len(n.args), cs)
+                    big = lambda n: sym.size(n) > 40      # only deep terms are paired; small ones stay in the partial sums
+                    rest_b = list(kb2); rest_a = []
+                    for ta in ka2:
+                        m_ = next((tb for tb in rest_b if big(ta) and big(tb) and shape(tb) == shape(ta)), None)
+                        if m_ is not None:
+                            rest_b.remove(m_); stack.append((ta, m_))
+                        else:
+                            rest_a.append(ta)
+                    ka2, kb2 = rest_a, rest_b
+                    if not ka2 and not kb2:
+                        continue
                 if len(ka2) != len(kb2):
-                    out[(a.id, b.id)] = (a, b); continue
+                    if a.op == "+" and ka2 and kb2:
+                        # the common terms cancel: it suffices that the remaining partial sums are equal
+                        sa, sb = ka2[0], kb2[0]
+                        for t in ka2[1:]: sa = sym.add(sa, t)
+                        for t in kb2[1:]: sb = sym.add(sb, t)
+                        if (sa.id, sb.id) != (a.id, b.id):
+                            out[(sa.id, sb.id)] = (sa, sb)
+                        else:
+                            out[(a.id, b.id)] = (a, b)
+                    else:
+                        out[(a.id, b.id)] = (a, b)
+                    continue
                 ka, kb = ka2, kb2
             stack.extend(zip(ka, kb))
         elif resolver is not None and a.op == "v" and b.op == "v" and resolver(a, b) is not None:
